@@ -177,6 +177,10 @@ class P(flow.Plan):
         runs.append(("jobs-resume-no-corruption", "SenderJobsImpl", rc % (0, 2, "TRUE", "FALSE"), None, []))
         runs.append(("jobs-resume-F19", "SenderJobsImpl", rc % (1, 1, "TRUE", "FALSE"), None, ["ResumeReturns"]))
         runs.append(("jobs-resume-F19-quiet-noreanalysis", "SenderJobsImpl", rc % (1, 1, "FALSE", "TRUE"), None, ["ResumeReturns"]))
+        # beyond the listed properties: the analyser's layer table is the inverse of its cut into layers, for every program
+        lc = "SPECIFICATION Spec\nCONSTANTS\n MaxLines = %d\n Zs = {0, 1}\nCHECK_DEADLOCK FALSE\nINVARIANT Inv_Table\nINVARIANT Inv_Monotone\nINVARIANT Inv_Batch\n"
+        runs.append(("gcoder-layers", "GcoderLayers", lc % (5 if tier == "thorough" else 4), None, []))
+        runs.append(("gcoder-layers-empty-first-layer", "GcoderLayers", lc % 2 + "INVARIANT Inv_NoEmptyLayer\n", None, ["Inv_NoEmptyLayer"]))
         if tier == "thorough":
             runs.append(("jobs-lifecycle-2x2", "SenderJobsImpl", jc % (2, 2, 1, "1, 3", "FALSE", live), None, []))
             runs.append(("sender-4x3", "SenderImpl", cfg(4, 3, ["CompleteModuloFindings", "InOrder"]), None, []))
@@ -218,7 +222,21 @@ class P(flow.Plan):
                "impl_level_corrupted_trace_rejected": t2 == 1 and a2 == 0,
                "drift_count": tot - acc, "drift_notes": [{"trace": i, "schedule": inputs[i]} for i in rej[:3]]}
         out.update(self.job_life_cycle())
+        out.update(self.layer_table())
         return out
+
+    def layer_table(self):
+        """Beyond C15: the (layer, line) table through which printcore fetches the line to send (GcoderLayers)."""
+        from . import check_layers
+        tier, sd = getattr(self, "_tier", "quick"), getattr(self, "_sd", 1)
+        lt = check_layers.run(sd, 400 if tier == "thorough" else 60)
+        if lt.get("n_contract_failures"):
+            flow.say("NOTE layer table (beyond the listed properties): on %d of %d jobs the real gcoder table is not the inverse of the "
+                     "cut into layers (first job: %s)" % (lt["n_contract_failures"], lt["jobs"], json.dumps(lt["first_bad_job"])[:300]))
+        if lt.get("n_impl_mismatches"):
+            flow.say("NOTE drift (layer table): on %d of %d jobs the real gcoder table differs from the one GcoderLayers computes "
+                     "(first job: %s)" % (lt["n_impl_mismatches"], lt["jobs"], json.dumps(lt["first_bad_job"])[:300]))
+        return {"gcoder_layer_table": lt}
 
     def job_life_cycle(self):
         """Beyond C15: executions with cancelprint / restart / ';@pause' validated against SenderJobsImpl."""
